@@ -14,6 +14,7 @@ LEAN = os.path.join(VERIF, 'lean')
 REPO = os.environ.get('PYAIS_REPO', '/repo')
 PY = '/venv/bin/python'
 DRIVER = os.path.join(LEAN, '.lake', 'build', 'bin', 'driver')
+SPECDRIVER = os.path.join(LEAN, '.lake', 'build', 'bin', 'specdriver')
 GENERATED = os.path.join(LEAN, 'PyaisVerif', 'Generated')
 ALLOWED_AXIOMS = {'propext', 'Classical.choice', 'Quot.sound'}
 FORBIDDEN = re.compile(r'\b(sorry|admit|native_decide|bv_decide|implemented_by|unsafe)\b|^\s*axiom\s|maxHeartbeats\s+0\b')
@@ -63,6 +64,9 @@ def regenerate():
 
 
 def lake_build():
+    # the specification driver does not depend on the generated tables: build it first so that it
+    # is available for the failing-input search even when the rest no longer builds
+    sh(['lake', 'build', 'specdriver'], cwd=LEAN, timeout=3000)
     r = sh(['lake', 'build'], cwd=LEAN, timeout=3000)
     return r.returncode == 0, (r.stdout + r.stderr)
 
@@ -143,6 +147,37 @@ def grep_forbidden(relpaths):
 DECL_RE = re.compile(r'^(?:private\s+|protected\s+)?(theorem|example|lemma)\b\s*([A-Za-z0-9_.\']*)')
 
 
+def ensure_property_oleans(relpath, _seen=None):
+    """Property files may import other property files (C02 builds on C01, C04, C08, C09).  Property
+    files are not part of the lake library (a failing obligation must not break the build of
+    everything else), so their .olean files are produced on demand here; a property file whose
+    obligations fail yields no .olean and every file importing it then fails to elaborate - which
+    is the intended meaning: the importing theorems are no longer shown."""
+    _seen = _seen if _seen is not None else set()
+    text = open(os.path.join(LEAN, relpath)).read()
+    th = tree_hash()
+    for m in re.finditer(r'^import\s+(PyaisVerif\.Properties\.[A-Za-z0-9_]+)', text, re.M):
+        mod = m.group(1)
+        rp = mod.replace('.', '/') + '.lean'
+        if rp in _seen:
+            continue
+        _seen.add(rp)
+        ensure_property_oleans(rp, _seen)
+        odir = os.path.join(LEAN, '.lake', 'build', 'lib', 'lean', 'PyaisVerif', 'Properties')
+        os.makedirs(odir, exist_ok=True)
+        base = os.path.join(odir, os.path.basename(rp)[:-5])
+        marker = base + '.olean.hash'
+        if os.path.exists(base + '.olean') and os.path.exists(marker) and open(marker).read() == th:
+            continue
+        for ext in ('.olean', '.ilean', '.olean.hash'):
+            if os.path.exists(base + ext):
+                os.remove(base + ext)
+        r = sh(['lake', 'env', 'lean', '-o', base + '.olean', '-i', base + '.ilean', rp], cwd=LEAN, timeout=3000)
+        if r.returncode == 0 and os.path.exists(base + '.olean'):
+            with open(marker, 'w') as f:
+                f.write(th)
+
+
 def lean_check_file(relpath, use_cache=True):
     """Elaborate one property file with `lean --json`; returns per-obligation status.
 
@@ -159,6 +194,7 @@ def lean_check_file(relpath, use_cache=True):
         res['cached'] = True
         return res
     t0 = time.time()
+    ensure_property_oleans(relpath)
     # audit copy: the property file plus `#print axioms` for every theorem that lacks one, so that
     # every theorem (helpers included) is audited; original line numbers are preserved
     text = open(path).read()
@@ -243,6 +279,23 @@ def lean_check_file(relpath, use_cache=True):
         json.dump(res, f)
     os.replace(cpath + '.tmp', cpath)
     return res
+
+
+def run_spec(lines, timeout=3000):
+    """pipe lines through the specification driver (independent of the generated tables)"""
+    if not lines:
+        return []
+    if not os.path.exists(SPECDRIVER):
+        raise Infra('specification driver not built')
+    r = subprocess.run([SPECDRIVER], input='\n'.join(lines) + '\n', capture_output=True, text=True, timeout=timeout)
+    if r.returncode != 0:
+        raise Infra('specification driver crashed: ' + r.stderr[-2000:])
+    out = r.stdout.split('\n')
+    if out and out[-1] == '':
+        out.pop()
+    if len(out) != len(lines):
+        raise Infra('specification driver answered %d lines for %d operations' % (len(out), len(lines)))
+    return out
 
 
 def run_model(lines, timeout=3000):
